@@ -64,18 +64,21 @@ pub fn run(args: &[String]) -> String {
             }
             "HOLDS bound: all 16,777,216 three-byte streams from a fresh decoder, each followed by 8 probe bytes".into()
         }
-        // key events: all ordered pairs of (key, state) events under all mode settings, then a probe third event
+        // key events: all ordered pairs of (key, state) events under all mode / layout-change schedules, then a probe third
+        // event (also the same key a third time). `events <aspect>`: 1 = modifiers only (C04), 2 = decoded keys only (C14), 3 = both
         "events" => {
+            let aspect: u8 = if args.len() > 1 { args[1].parse().unwrap() } else { 3 };
+            let sc = match aspect { 1 => "events_mods", 2 => "events_decode", _ => "events" };
             let n = X_NKEYS as u32;
             for k0 in 0..n {
                 for s0 in 0..3u32 {
                     for k1 in 0..n {
                         for s1 in 0..3u32 {
-                            for modes in 0..8u32 {
-                                for k2 in [0u32, 40, 70] {
+                            for modes in 0..64u32 {
+                                for k2 in [0u32, 40, k1] {
                                     let (a, b, c) = (k0 as u8, k1 as u8, k2 as u8);
-                                    if !guarded(move || scenario_events([a, b, c], [s0 as u8, s1 as u8, 1], modes as u8, 3, false)) {
-                                        return hit("events", &[k0 as u64, k1 as u64, k2 as u64, s0 as u64, s1 as u64, 1, modes as u64, 3]);
+                                    if !guarded(move || scenario_events_aspect([a, b, c], [s0 as u8, s1 as u8, 1], modes as u8, 3, aspect, false)) {
+                                        return hit(sc, &[k0 as u64, k1 as u64, k2 as u64, s0 as u64, s1 as u64, 1, modes as u64, 3]);
                                     }
                                 }
                             }
@@ -83,7 +86,53 @@ pub fn run(args: &[String]) -> String {
                     }
                 }
             }
-            "HOLDS bound: all ordered pairs of (key, state) events x 8 mode schedules, each followed by 3 probe presses".into()
+            "HOLDS bound: all ordered pairs of (key, state) events x 64 mode / layout-change schedules, each followed by 3 probe presses (incl. the same key again)".into()
+        }
+        // C07 proper: resynchronisation after every 1..3-byte stream whose last output is an event or error, 6 probe suffixes;
+        // and the bound on consecutive 'no event yet' over all 4-byte streams of prefix-like bytes
+        "resync" => {
+            let set: u8 = args[1].parse().unwrap();
+            let sc = if set == 1 { "resync1" } else { "resync2" };
+            let probes: [[u8; 3]; 6] = [[0x1C, 0xF0, 0x1C], [0xE0, 0x75, 0x9C], [0xF0, 0x14, 0x14], [0xE1, 0x14, 0x77], [0xE0, 0xF0, 0x74], [0x9D, 0xE0, 0x9D]];
+            for a in 0u32..256 {
+                for b in 0u32..256 {
+                    for c in 0u32..256 {
+                        let by = [a as u8, b as u8, c as u8, 0];
+                        for p in probes {
+                            if !guarded(move || scenario_resync(set, by, 3, p, false)) {
+                                return hit(sc, &[a as u64, b as u64, c as u64, 0, 3, p[0] as u64, p[1] as u64, p[2] as u64]);
+                            }
+                        }
+                    }
+                }
+            }
+            let pre = [0xE0u8, 0xE1, 0xF0, 0x00, 0xAA, 0x1C, 0xFA, 0x83, 0x60, 0x61];
+            for a in pre {
+                for b in pre {
+                    for c in pre {
+                        for d in pre {
+                            if !guarded(move || scenario_resync(set, [a, b, c, d], 4, [0x1C, 0x1C, 0x1C], false)) {
+                                return hit(sc, &[a as u64, b as u64, c as u64, d as u64, 4, 0x1C, 0x1C, 0x1C]);
+                            }
+                        }
+                    }
+                }
+            }
+            "HOLDS bound: all 16,777,216 three-byte streams x 6 probe suffixes; 10,000 four-byte streams of prefix-like bytes".into()
+        }
+        // C19 proper: make/break pairing for every prefix and code (complete)
+        "pairing" => {
+            let set: u8 = args[1].parse().unwrap();
+            let sc = if set == 1 { "pairing1" } else { "pairing2" };
+            for prefix in [0u8, 0xE0, 0xE1] {
+                for code in 0u32..256 {
+                    let c = code as u8;
+                    if !guarded(move || scenario_pairing(set, prefix, c, false)) {
+                        return hit(sc, &[prefix as u64, code as u64]);
+                    }
+                }
+            }
+            "HOLDS bound: 3 prefixes x 256 codes (complete)".into()
         }
         // Keyboard vs three separate stages: structured sample of frame / prefix states x every operation argument
         "keyboard" => {
@@ -122,8 +171,8 @@ pub fn run(args: &[String]) -> String {
         // soak: long monotonous histories that trip narrow counters (u8 / u16) hidden in decoder state
         "soak" => {
             let r = std::panic::catch_unwind(|| {
-                let mut kb = Keyboard::new(ScancodeSet2::new(), RecordingLayout, HandleControl::MapLettersToUnicode);
-                let mut kb1 = Keyboard::new(ScancodeSet1::new(), RecordingLayout, HandleControl::Ignore);
+                let mut kb = Keyboard::new(ScancodeSet2::new(), RecordingLayout(0), HandleControl::MapLettersToUnicode);
+                let mut kb1 = Keyboard::new(ScancodeSet1::new(), RecordingLayout(0), HandleControl::Ignore);
                 for (_name, k) in KEYCODES {
                     for st in [KeyState::Down, KeyState::Up, KeyState::SingleShot] {
                         for _ in 0..70_000u32 {
